@@ -59,6 +59,7 @@ def cases(tier):
     for i in range(0, len(cs), 25):
         out.append({"name": "ops/%d" % i, "c02": cs[i:i + 25]})
     out.append({"name": "shared-seed", "shared_seed": True})
+    out.append({"name": "default-seed", "default_seed": True})
     return out
 
 
@@ -79,6 +80,40 @@ for src in %r:
 print(bad)
 print('REPRODUCED' if bad else 'NOT-REPRODUCED'); sys.exit(1 if bad else 0)
 """
+
+
+DEFAULT_SEED_PROGS = ["a = (x * 2.0).sum(); b = (y * 3.0).sum(); a.backward(); b.backward()", "a = x.sum(); b = x.sum(); a.backward(); b.backward()",
+                      "a = x * 2.0; b = y * 3.0; a.backward(); b.backward()", "a = mg.sum(x * x); a.backward(); b = mg.sum(a * 1.0 + y); b.backward()",
+                      "a = (x * 2.0).sum(); a.backward(); c = (y * 1.0).sum(); d = c * 2.0; d.backward()"]
+
+
+def run_default_seed(mg):
+    """back-propagations WITHOUT a seed from several terminals: the arrays MyGrad makes up as seeds (and whatever they are handed on to) must
+    not be shared between tensors that do not share memory"""
+    res = common.new_result()
+    findings = []
+    for src in DEFAULT_SEED_PROGS:
+        lib.reset_state()
+        x, y = mg.Tensor(symarr("x", (3,))), mg.Tensor(symarr("y", (3,)))
+        env = {"mg": mg, "np": np, "x": x, "y": y}
+        exec(src, env)
+        res["paths"] += 1
+        T = {n: t for n, t in env.items() if isinstance(t, mg.Tensor) and t.grad is not None}
+        for n1, n2 in itertools.combinations(sorted(T), 2):
+            if np.shares_memory(T[n1].grad, T[n2].grad) and not np.shares_memory(T[n1].data, T[n2].data):
+                findings.append("`%s`: %s.grad and %s.grad share memory although the tensors do not" % (src, n1, n2))
+    lib.reset_state()
+    if findings:
+        path = common.write_replay(PROP, "default_seed", SHARED_SEED_REPLAY.replace(', "g": g}', "}") % (DEFAULT_SEED_PROGS,))
+        ok, out = common.run_replay(path)
+        if ok:
+            res["status"] = common.VIOLATION
+            res["violations"].append({"signature": "default-seed:two-terminals-alias", "replay": path, "summary": "; ".join(findings[:3])})
+        else:
+            res["status"] = common.INCONCLUSIVE
+            res["notes"].append("did not reproduce: %s" % findings[:2])
+    res["sample"] = {"programs": DEFAULT_SEED_PROGS}
+    return res
 
 
 def run_shared_seed(mg):
@@ -333,6 +368,8 @@ def run_case(spec, tier):
     mg = common._WORKER["mg"]
     if spec.get("shared_seed"):
         return run_shared_seed(mg)
+    if spec.get("default_seed"):
+        return run_default_seed(mg)
     res = common.new_result()
     res["ops_checked"] = 0
     for cs in spec["c02"]:
